@@ -220,6 +220,12 @@ def check(model, rep):
     if not any(i.rule == 'C02.order' for i in rep.instances):
         rep.holds('C02.order', 'all instants', f'{len(ins)} instant contexts: no stale read of any attribute or of the time axis')
     check_recorder(model, rep)
+    # the motor's driving torque must be the documented characteristic: the law extracted by C08's rules
+    from sa.core import Report
+    from checks import c08
+    dep = Report('C08')
+    c08.check(model, dep)
+    rep.absorb(dep, {'C08.law.torque': 'C02.motor-law', 'C08.units': 'C02.motor-law.units'})
     rep.analysed.update({'run_paths': len(rm.paths), 'instant_contexts': len(ins)})
     rep.require('C02.driving', 2)
     rep.require('C02.load', 2)
